@@ -404,8 +404,10 @@ class Buffer:
         """
         try:
             if isinstance(j, int):
+                if self.__i + j < 0:  # before the start, not the last item
+                    return None
                 return self[self.__i + j]
-            return self[self.__i + j[0]:self.__i + j[1]]
+            return self[max(self.__i + j[0], 0):max(self.__i + j[1], 0)]
         except IndexError:
             return None
 
